@@ -36,6 +36,7 @@ type chanSpec struct {
 	Unsub     string `json:"unsub"`      // "" | ext (another goroutine) | self (the receiver, after SelfAfter values, while it is NOT receiving) | scope
 	SelfAfter int    `json:"self_after"` // for self
 	Delay     int    `json:"delay"`      // pauses before the late subscribe / external unsubscribe
+	ScopeExt  bool   `json:"scope_ext"`  // scope: the tracked wrapper is also unsubscribed by another goroutine, racing with Close
 }
 
 type schedule struct {
@@ -66,6 +67,7 @@ func genSchedule(r *vh.RNG) schedule {
 			cs.SelfAfter = r.Intn(3)
 		case x < 62:
 			cs.Unsub = "scope"
+			cs.ScopeExt = r.Chance(40)
 		}
 		cs.Delay = r.Intn(6)
 		s.Chans = append(s.Chans, cs)
@@ -122,6 +124,15 @@ type outcome struct {
 	panicked string
 }
 
+func pos0(tr *event.VerifTrace, point string, ch int) int {
+	for i, e := range tr.Snapshot() {
+		if e.Point == point && e.Ch == ch {
+			return i
+		}
+	}
+	return -1
+}
+
 func pause(r *vh.RNG, mu *sync.Mutex, n int) {
 	for ; n > 0; n-- {
 		mu.Lock()
@@ -176,6 +187,17 @@ func runSchedule(s schedule, watchdog time.Duration) (out outcome) {
 			} else {
 				tr.Record("track_nil", cs.ID, 0) // the scope was already closed: stays subscribed
 			}
+		}
+		if cs.Unsub == "scope" && cs.ScopeExt && pos0(tr, "track_nil", cs.ID) < 0 {
+			wrapped := sub
+			wgWork.Add(1)
+			go guard(func() {
+				defer wgWork.Done()
+				pause(rng, &rmu, cs.Delay*2)
+				tr.Record("sunsub_call", cs.ID, 0)
+				wrapped.Unsubscribe() // scopeSub.Unsubscribe: unsubscribes and leaves the scope; races with scope.Close
+				tr.Record("sunsub_ret", cs.ID, 0)
+			})
 		}
 		tr.Record("sub_ret", cs.ID, 0)
 		smu.Lock()
@@ -267,6 +289,11 @@ func runSchedule(s schedule, watchdog time.Duration) (out outcome) {
 			tr.Record("scope_close_call", 0, 0)
 			scope.Close()
 			tr.Record("scope_close_ret", 0, 0)
+			probe := event.NewSubscription(func(q <-chan struct{}) error { <-q; return nil })
+			if scope.Track(probe) != nil {
+				tr.Record("scope_track_after_close", 0, 0)
+			}
+			probe.Unsubscribe()
 			_ = mine
 		})
 	}
@@ -323,6 +350,9 @@ func runSchedule(s schedule, watchdog time.Duration) (out outcome) {
 	if !wait(&wgWork) {
 		return out
 	}
+	if len(scoped) > 0 {
+		tr.Record("scope_count", 0, scope.Count())
+	}
 	close(quit)
 	if !wait(&wgRecv) {
 		return out
@@ -346,7 +376,7 @@ func translate(s schedule, evs []event.VerifEvent) ([]string, string) {
 	for i, e := range evs {
 		sid := cur[e.G]
 		switch e.Point {
-		case "sub_call", "sub_ret", "scope_close_call", "scope_close_ret", "track_nil":
+		case "sub_call", "sub_ret", "scope_close_call", "scope_close_ret", "track_nil", "sunsub_call", "sunsub_ret", "scope_track_after_close", "scope_count":
 		case "subscribe":
 			ls = append(ls, fmt.Sprintf("sub:%d:%d", e.Ch, capOf[e.Ch]))
 		case "send_call":
@@ -490,6 +520,14 @@ func oracle(s schedule, evs []event.VerifEvent) (observed string, vs []verdict) 
 		}
 	}
 	sort.Ints(sids)
+	if pos("scope_track_after_close", 0) >= 0 {
+		vs = append(vs, verdict{"scope-track-after-close", "SubscriptionScope.Track returned a subscription after Close had returned"})
+	}
+	for _, e := range evs {
+		if e.Point == "scope_count" && e.Arg != 0 {
+			vs = append(vs, verdict{"scope-count-after-close", fmt.Sprintf("SubscriptionScope.Count() = %d after Close and all Unsubscribes returned", e.Arg)})
+		}
+	}
 	for _, e := range evs {
 		if e.Point == "send_nopanic" {
 			vs = append(vs, verdict{"badtype-send-accepted", fmt.Sprintf("Send(%d) with a value of the wrong type did not panic", e.Ch)})
@@ -503,6 +541,13 @@ func oracle(s schedule, evs []event.VerifEvent) (observed string, vs []verdict) 
 			unCall, unRet = scopeCall, scopeRet
 			if pos("track_nil", c) >= 0 {
 				unCall, unRet = -1, -1
+			}
+			// the wrapper may also have been unsubscribed directly: the earliest call / return counts
+			if x := pos("sunsub_call", c); x >= 0 && (unCall < 0 || x < unCall) {
+				unCall = x
+			}
+			if x := pos("sunsub_ret", c); x >= 0 && (unRet < 0 || x < unRet) {
+				unRet = x
 			}
 		}
 		for _, sid := range sids {
@@ -676,8 +721,9 @@ func main() {
 	c := vh.Init("C19")
 	m := c.StartModel()
 	defer m.Close()
-	c.Res.Rule = "one case = one seeded schedule of 1-3 sender goroutines (1-3 Sends each) x 1-4 subscriber channels (cap 0/1/2/8, fast or slow receiver, subscribed before or during the sends) x unsubscription (none / from another goroutine / by the subscriber itself after it stopped receiving, i.e. while a Send may be blocked on that very channel / SubscriptionScope.Close), with yields and micro-sleeps drawn from the seed at every verifPoint; non-trivial and distinct = distinct sequence of LTS labels recorded"
+	c.Res.Rule = "Feed: one case = one seeded schedule of 1-3 sender goroutines (1-3 Sends each) x 1-4 subscriber channels (cap 0/1/2/8, fast or slow receiver, subscribed before or during the sends) x unsubscription (none / from another goroutine / by the subscriber itself after it stopped receiving, i.e. while a Send may be blocked on that very channel / SubscriptionScope.Close), with yields and micro-sleeps drawn from the seed at every verifPoint; non-trivial and distinct = distinct sequence of LTS labels recorded. TypeMux: 50 directed schedules (3 or 4 subscribers of one type, optionally a second type; a Post blocked on the gated reader at position b; Unsubscribe of the subscriber at position u, for every (b,u); then a second Post, Stop, Post after Stop) plus seeded schedules of 3-5 subscriptions over 1-2 types (single- and multi-type, fast/slow readers, early/late, unsubscribed by another goroutine or by the reader itself), 1-3 posters, Stop during or after the posts"
 	var scheds []schedule
+	var muxReplay *muxSched
 	if c.Replay != "" {
 		b, err := os.ReadFile(c.Replay)
 		if err != nil {
@@ -685,12 +731,14 @@ func main() {
 		}
 		var rp struct {
 			Replay struct {
-				Schedule *schedule `json:"schedule"`
+				Schedule    *schedule `json:"schedule"`
+				MuxSchedule *muxSched `json:"mux_schedule"`
 			} `json:"replay"`
 		}
 		if err := json.Unmarshal(b, &rp); err != nil {
 			c.Fatal("replay: %v", err)
 		}
+		muxReplay = rp.Replay.MuxSchedule
 		if rp.Replay.Schedule != nil {
 			for i := 0; i < 300; i++ { // the schedule fixes the arrangement; the interleaving is re-sampled
 				s := *rp.Replay.Schedule
@@ -784,6 +832,9 @@ func main() {
 		if i < 3 {
 			c.Sample(map[string]interface{}{"schedule": r.s, "labels": strings.Join(labels[i], " "), "model": answers[k]})
 		}
+	}
+	if c.Replay == "" || muxReplay != nil {
+		muxPart(c, m, muxReplay)
 	}
 	raceRun(c)
 	c.Assume("channels and mutexes behave as the Go language specification says; the scheduler and the memory model are not modelled (the race detector is not part of this run)")
